@@ -1252,7 +1252,7 @@ def is_monotonic_on(dfx: Expr, var: str, lower: Expr, upper: Expr) -> bool:
     if a > b:
         a, b = b, a
     if a == float('-inf') and b == float('inf'):
-        pts = [-100.0, -10.0, -1.0, -0.1, 0.1, 1.0, 10.0, 100.0]
+        pts = [-100.0, -10.0, -1.0, -0.1, 0.0, 0.1, 1.0, 10.0, 100.0]
     elif a == float('-inf'):
         pts = [b - d for d in (0.01, 0.1, 1.0, 10.0, 100.0)]
     elif b == float('inf'):
